@@ -453,14 +453,30 @@ theorem advance_or_wait (hr : ReachC cfg s) (hne : s.rt ≠ .exited) :
 theorem stepC_eq_step {l : Label} (hnd : ∀ n, l ≠ .delay n) : stepC cfg s l = step cfg s l := by
   cases l <;> first | rfl | exact absurd rfl (hnd _)
 
-theorem returns_aux : ∀ (n : Nat) (s : State), mu cfg s ≤ n → ReachC cfg s → Triggered s →
-    ∃ ls s', runI cfg s ls = some s' ∧ s'.rt = .exited := by
+/-- every label but `orchAbandon` leaves the flag `abandoned` as it is -/
+theorem abandoned_step {l : Label} {s' : State} (h : step cfg s l = some s') (hl : l ≠ .orchAbandon) :
+    s'.abandoned = s.abandoned := by
+  cases l <;> simp only [step] at h
+  all_goals (repeat' (split at h))
+  all_goals (first | (cases h; done) | skip)
+  all_goals (cases h)
+  all_goals (first | rfl | exact absurd rfl hl)
+
+/-- `orchAbandon` does not decrease the measure: no step of the shutdown strategy (`Advance`) is an abandonment -/
+theorem orchAbandon_mu {s' : State} (h : step cfg s .orchAbandon = some s') : mu cfg s' = mu cfg s := by
+  simp only [step] at h
+  split at h
+  · cases h; rfl
+  · cases h
+
+theorem returns_aux : ∀ (n : Nat) (s : State), mu cfg s ≤ n → ReachC cfg s → Triggered s → s.abandoned = false →
+    ∃ ls s', runI cfg s ls = some s' ∧ s'.rt = .exited ∧ s'.abandoned = false := by
   intro n
   induction n with
   | zero =>
-    intro s hmu hr ht
+    intro s hmu hr ht hna
     by_cases hex : s.rt = .exited
-    · exact ⟨[], s, rfl, hex⟩
+    · exact ⟨[], s, rfl, hex, hna⟩
     · exfalso
       rcases advance_or_wait hr hex with ⟨l, s1, _, _, _, hlt⟩ | ⟨_, hw⟩
       · omega
@@ -468,13 +484,18 @@ theorem returns_aux : ∀ (n : Nat) (s : State), mu cfg s ≤ n → ReachC cfg s
         have : 0 < mu cfg s := by simp only [mu, hrt, rtRank]; omega
         omega
   | succ n ih =>
-    intro s hmu hr ht
+    intro s hmu hr ht hna
     by_cases hex : s.rt = .exited
-    · exact ⟨[], s, rfl, hex⟩
+    · exact ⟨[], s, rfl, hex, hna⟩
     · rcases advance_or_wait hr hex with ⟨l, s1, hint, hnd, hstep, hlt⟩ | ⟨_, hw⟩
       · have hsc : stepC cfg s l = some s1 := by rw [stepC_eq_step hnd]; exact hstep
-        obtain ⟨ls, s', hrun, hex'⟩ := ih s1 (by omega) (hr.step hsc) (triggered_step ht hstep)
-        exact ⟨l :: ls, s', by simp [runI, hint, hsc, hrun], hex'⟩
+        have hlab : l ≠ .orchAbandon := by
+          intro hc; subst hc
+          have := orchAbandon_mu hstep
+          omega
+        have hna1 : s1.abandoned = false := by rw [abandoned_step hstep hlab]; exact hna
+        obtain ⟨ls, s', hrun, hex', hna'⟩ := ih s1 (by omega) (hr.step hsc) (triggered_step ht hstep) hna1
+        exact ⟨l :: ls, s', by simp [runI, hint, hsc, hrun], hex', hna'⟩
       · obtain ⟨dl, hrt, hlt, hco⟩ := hw ht
         have hstep : step cfg s (.delay (dl - s.now)) = some { s with now := s.now + (dl - s.now) } := by
           simp [step, hex]; omega
@@ -482,7 +503,7 @@ theorem returns_aux : ∀ (n : Nat) (s : State), mu cfg s ≤ n → ReachC cfg s
           simp only [stepC, hco, if_true]; exact hstep
         have hlt' : mu cfg { s with now := s.now + (dl - s.now) } < mu cfg s := by
           simp only [mu, hrt, hungTime]; omega
-        obtain ⟨ls, s', hrun, hex'⟩ := ih _ (by omega) (hr.step hsc) (triggered_step ht hstep)
-        exact ⟨.delay (dl - s.now) :: ls, s', by simp [runI, internal, hsc, hrun], hex'⟩
+        obtain ⟨ls, s', hrun, hex', hna'⟩ := ih _ (by omega) (hr.step hsc) (triggered_step ht hstep) hna
+        exact ⟨.delay (dl - s.now) :: ls, s', by simp [runI, internal, hsc, hrun], hex', hna'⟩
 
 end Kopf.C20
